@@ -8,6 +8,9 @@ open Util
 let rec parse_ops (s : string) : Peers.pop list =
   match split_on ':' s with
   | "K" :: i :: k :: inner -> parse_ops (String.concat ":" inner) @ [Peers.PAlias (n_of_hex i, n_of_hex k)]
+  (* R:<b>: a broadcast during which every notified sink removes peer b: the peers addressed are
+     those present at the moment of the call (b included), then b is gone *)
+  | ["R"; b] -> [Peers.PBroadcast; Peers.PRemove (n_of_hex b)]
   | _ -> [parse_op s]
 and parse_op (s : string) : Peers.pop =
   match split_on ':' s with
